@@ -436,6 +436,7 @@ func c05Timed(in *c05In, scale int) (Result, int) {
 		direct = fmt.Sprintf("Proxy.ServeHTTP returned status %d (recorder %d) err %v", status, rec.Code, serr)
 	}
 	if hung {
+		atomic.AddInt32(&c05Hangs, 1)
 		out = "THang"
 		direct = fmt.Sprintf("Proxy.ServeHTTP did not return within %v (try_duration %s): the retry loop does not end", limit, us(rt.TD2))
 		run.margin, run.books = false, false
@@ -510,7 +511,14 @@ func c05Timed(in *c05In, scale int) (Result, int) {
 		Class: fmt.Sprintf("retryt:%s:n%d:failed%d", in.Policy, n, min(nfailed, 3))}, status2
 }
 
+// once a few requests did not return the fact is established; the remaining timed cases would each
+// wait for the watchdog
+var c05Hangs int32
+
 func c05RunTimed(in *c05In) Result {
+	if atomic.LoadInt32(&c05Hangs) >= 3 {
+		return c05SkipT("skipped: three earlier requests did not return", "retryt:skipped-after-hangs")
+	}
 	var res Result
 	status := 0
 	var terms []string
